@@ -505,9 +505,10 @@ pub fn dump_case(prop: &str, id: &str, t: &Target, cfg: &DumpCfg, dest: &mut Rec
     if let Some(img) = &image {
         std::fs::write(format!("{}.img", base), img).unwrap();
     }
+    let (softst, softtree) = image.as_ref().map(|img| crate::c11::soft_error_field(img)).unwrap_or(("absent".into(), "-".into()));
     let line = format!(
-        "{} {} kind=dump cfg={} result={} img=@{}.img mem=@{}.mem maps=@{}.maps dest=@{}.dest c0=@{}.c0 base={} start={} log={} thr={} states={} pid={}{}",
-        prop, id, cfg.field(), result, base, base, base, base, base, base, start,
+        "{} {} kind=dump cfg={} result={} softst={} softtree={} img=@{}.img mem=@{}.mem maps=@{}.maps dest=@{}.dest c0=@{}.c0 base={} start={} log={} thr={} states={} pid={}{}",
+        prop, id, cfg.field(), result, softst, softtree, base, base, base, base, base, base, start,
         if dest.log.is_empty() { "-".to_string() } else { dest.log.join(",") },
         thr,
         states.join(","),
